@@ -38,6 +38,16 @@ R = {
  "C05b-computing-guard-not-released-while-panicking": ("C05", ["C05 quick: VIOLATION (38 s, a later request never completed)"], "caught as built (second change for C05)"),
  "C08b-pending-projection-marker-in-own-batch": ("C08", ["C08 quick: VIOLATION (71 s, image 25/38)"], "caught as built (second change for C08)"),
  "C02b-backward-edge-set-upgrade-under-read-lock": ("C02", ["C02 quick: VIOLATION (58 s, CompressedBackwardEdgeSet thread plans: 7 of 42 elements lost)"], "caught as built (second change for C02; it re-introduces the defect fixed by d82e202)"),
+ "C04b-commit-releases-phase-lock-early": ("C04", ["C04 quick: VIOLATION (41 s)"], "caught as built (second change for C04)"),
+ "C07b-timestamp-stored-only-on-real-change": ("C07", ["C07 quick: VIOLATION (49 s, stale value after a no-op session + restart)", "C08 quick: OK"], "caught as built (second change for C07)"),
+ "C10b-single-serializer-skips-reorder-buffer": ("C10", ["C10 quick: VIOLATION (36 s, commit log order [1, 0, 2, ..])"], "caught as built (second change for C10)"),
+ "C11b-fjall-buffer-inserts-before-removes": ("C11", ["C11 quick: VIOLATION (187 s, Fjall, serialization-buffer path)"], "caught as built (second change for C11)"),
+ "C12b-derive-tuple-struct-skip-index": ("C12", ["C12 quick: VIOLATION (TupSkipMid does not round-trip)"],
+   "missed at first: the universe had skipped fields only in named structs/variants. Tuple structs and tuple variants with a skipped field in front of / between encoded fields were added."),
+ "C13b-hashmap-key-and-value-hashed-apart": ("C13", ["C13 quick: VIOLATION ({255: 255, 127: 0, 0: 0} and {0: 255, 127: 0, 255: 0} hash alike)"],
+   "missed at first: the unequal partner of a value was a random neighbour (one tape byte changed), never a re-association of the value's own parts. `mk_neighbour` builds, from the same tape, the map with the values of two keys swapped."),
+ "C15b-encode-session-keyed-by-hash-only": ("C15", ["C15 quick: VIOLATION (fresh interner: decode panicked: referenced interned value not found)"],
+   "missed at first: no generated structure held handles of two types with equal hash streams and equal contents. `Interned<str>` now draws from the texts of the `Interned<String>` handles, and `Interned<u32>` / `Interned<Wrap(u32)>` were added to the structure."),
 }
 rows = []
 for sid, (prop, ran, note) in R.items():
